@@ -35,6 +35,7 @@ def run(ctx):
     vlib.validate_trace(ctx, "BatchTrace", out, "free-running batch writer: memory limits, threads, header", "reset")
     ctx.evaluations += runs
     ctx.nontrivial += runs
+    mm.tinv(ctx, "oligo", 20000 if ctx.thorough() else 6000)
     p = ctx.path("paths.ndjson")
     groups = 20 if ctx.thorough() else 5
     vlib.kvh(["trace", "oligopaths", ctx.seed, groups, ctx.rundir, 120 if ctx.thorough() else 40], out=p)
